@@ -94,6 +94,8 @@ pub fn query_strategy() -> impl Strategy<Value = Option<String>> {
     let val = prop_oneof![
         1 => Just(String::new()),
         4 => "[a-zA-Z0-9._~+-]{0,8}".prop_map(|s| s),
+        // characters RFC 3986 allows raw in a query and that mean nothing inside a value: a second `=`, `?`, `/`, `:`, `@`
+        2 => "[a-zA-Z0-9=?/:@!$'()*,;]{1,8}".prop_map(|s| s),
         2 => ("\\PC{0,6}", any::<bool>(), any::<bool>()).prop_map(|(s, all, up)| enc_component(&s, all, up)),
     ];
     prop::option::weighted(0.5, vec((part, val), 0..=6).prop_map(|kv| kv.iter().map(|(k, v)| format!("{k}={v}")).collect::<Vec<_>>().join("&")))
